@@ -87,6 +87,7 @@ inline void sample(const std::string& text) {
 	auto& s = st();
 	if (s.samples.size() < 3) s.samples.push_back(text.size() > 1500 ? text.substr(0, 1500) + "..." : text);
 }
+inline unsigned caseTimeoutSeconds() { const char* e = getenv("VERIF_CASE_TIMEOUT"); return e ? (unsigned)atoi(e) : 90u; }
 // called before a heavy case is executed, so that a crash can be attributed
 inline void current(const std::string& caseText) {
 	auto& s = st();
@@ -94,9 +95,11 @@ inline void current(const std::string& caseText) {
 	std::string p = s.out + ".current";
 	FILE* f = fopen(p.c_str(), "w");
 	if (f) { fprintf(f, "sub=%s\n%s", s.curSub.c_str(), caseText.c_str()); fclose(f); }
+	alarm(caseTimeoutSeconds());   // hang watchdog: > 1000x the normal case time; SIGALRM kills the worker, the driver replays the case in flight
 }
 inline void clearCurrent() {
 	auto& s = st();
+	alarm(0);
 	if (!s.writeCurrent || s.out.empty()) return;
 	unlink((s.out + ".current").c_str());
 }
@@ -261,7 +264,9 @@ inline int harnessMain(int argc, char** argv, std::function<void()> init = nullp
 		KV kv = readKV(replayPath);
 		std::string sub = gets(kv, "sub");
 		for (auto& s : registry()) if (s.name == sub) {
+			alarm(caseTimeoutSeconds());
 			std::string why = s.runReplay(kv);
+			alarm(0);
 			if (why.empty()) { printf("REPLAY-PASS %s\n", sub.c_str()); return 0; }
 			printf("REPLAY-FAIL %s: %s\n", sub.c_str(), why.c_str());
 			return 1;
